@@ -148,7 +148,9 @@ def input_entry_points(facts):
                 continue
             if b.nargs != 2:
                 continue
-            if "Handle" not in b.local_ty(1):
+            import vocab
+
+            if not vocab.ty_is(b.local_ty(1), vocab.lib_vocab(facts)["handle"]):
                 continue
             if not b.raw.get("ret_ty", "").startswith("std::result::Result<(), error::Error"):
                 continue
@@ -173,7 +175,9 @@ def trial_functions(facts):
         for b in lib.bodies:
             if b.raw["def_kind"] != "Fn" or b.nargs != 1:
                 continue
-            if "Ref<" not in b.local_ty(1) and not b.local_ty(1).endswith("Ref"):
+            import vocab
+
+            if not vocab.ty_is(b.local_ty(1), vocab.lib_vocab(facts)["ref"]):
                 continue
             if not b.raw.get("ret_ty", "").startswith("std::result::Result<bool, std::io::Error>"):
                 continue
@@ -220,7 +224,9 @@ def _borrow_info(lib, body, call_bb, arg):
     """(fresh_ok, origin_bb, accessor_body, rewinds): the trial's input comes from its own call of a
     same-crate accessor returning a Ref, and that accessor goes through the rewinding guard."""
     tr = trace(body, arg)
-    ok = bool(tr.origin and tr.origin[0] == "call" and (fn_of(tr.origin[2]) or {}).get("local") and "Ref" in body.local_ty(tr.origin[2]["dest"]["l"]))
+    import vocab
+
+    ok = bool(tr.origin and tr.origin[0] == "call" and (fn_of(tr.origin[2]) or {}).get("local") and vocab.ty_is(body.local_ty(tr.origin[2]["dest"]["l"]), vocab.lib_vocab(lib.facts)["ref"]))
     if not ok:
         return False, None, None, False
     acc = lib.by_id.get(fn_of(tr.origin[2]).get("resolved") or fn_of(tr.origin[2])["def"])
